@@ -420,6 +420,8 @@ func runChaos(r *monitor.Run, p Params) {
 	plg := &stopPlugin{}
 	curPlugin.Store(plg)
 	yield.Enable(p.Seed, p.HeavyYield)
+	yield.WatchRecovered()
+	yield.TakeRecovered()
 	drng := rand.New(rand.NewSource(p.Seed))
 	var dmu sync.Mutex
 	var redisCleanup func()
@@ -683,8 +685,27 @@ func runChaos(r *monitor.Run, p Params) {
 			break
 		}
 	}
-	// recovered panics are reported through OnClosed
+	// panics that a connection goroutine recovered from (verif hook in the recover blocks of the broker)
+	storeFaults := p.Redis && p.RefuseEvery > 0
+	for _, rc := range yield.TakeRecovered() {
+		if storeFaults {
+			// the store refused commands during this run: store faults are outside the quantifier of the property;
+			// what the broker does then is counted, not judged (DESIGN 9.6)
+			r.Count("panics_recovered_while_the_store_refused_commands", 1)
+			r.Distinct("panic_values_under_store_faults", rc.Value)
+			continue
+		}
+		val := rc.Value
+		if len(val) > 60 {
+			val = val[:60]
+		}
+		c.add("panic.recovered:"+rc.Site, fmt.Sprintf("a %s goroutine of the broker panicked (recovered, the connection was closed): %s", rc.Site, rc.Value), map[string]any{"stack": rc.Stack, "value": val})
+	}
+	// recovered panics are also visible through OnClosed
 	for _, e := range b.Log.Events() {
+		if storeFaults {
+			break
+		}
 		if e.Kind == "OnClosed" && (strings.Contains(e.Err, "runtime error") || strings.Contains(e.Err, "nil pointer") || strings.Contains(e.Err, "index out of range") || strings.Contains(e.Err, "must call ReadInflight")) {
 			c.add("panic.recovered", fmt.Sprintf("connection of %s ended by a recovered panic: %s", e.Client, e.Err), nil)
 		}
